@@ -8,15 +8,17 @@ from . import common_identity as ci
 
 LEVEL = "other"
 EXPLANATION = (
-    "Type-directed homomorphism check on MIR: for every `IntoPortable` impl in the crate (enumerated from "
-    "the trait-impl table) and every field of its ADT (enumerated from the definition, so a new field is a new "
-    "obligation), the output field is built from the same input field and the registry only, by the transfer "
-    "function its declared type dictates (copy / Into / register_type(s) / into_portable / map_into_portable), "
-    "with no other adapter on the flow; enum conversion is variant-preserving; the element-wise helpers apply "
-    "their function to each item in order; register_type cuts cycles (intern before expand, expand only when new)."
+    "Type-directed homomorphism check on symbolic runs of the MIR: every `IntoPortable` impl in the crate (enumerated from "
+    "the trait-impl table) is interpreted on a symbolic value of its self type (each field a fresh symbol, each Vec a "
+    "two-element sequence, each Option once Some and once None; fields enumerated from the ADT definition, so a new field is "
+    "a new obligation); the value it returns must be, field by field, the image its declared type dictates (ids: "
+    "register_type(registry, &x); strings: the String conversion; Option / Vec: element-wise, in order; nested model values: "
+    "their own into_portable; plain data: copied) and nothing else; enum conversion is variant-preserving; the element-wise "
+    "helpers map [i0,i1,i2] to the images in that order with the registry effects in that order; register_type cuts cycles "
+    "(scenario runs: id new / id known). How the bodies are spelled (helpers, loops, adapters, constructors) is irrelevant."
 )
 MANIFEST = {
-    "technique": "static analysis: type-directed field-provenance rules over MIR terms (rustc_private driver)",
+    "technique": "static analysis: type-directed homomorphism rules decided by abstract interpretation (symbolic runs) of the MIR (rustc_private driver)",
     "text": EXPLANATION + " Decides the structural premises of the induction written in DESIGN.md C02; not a "
     "per-value equality check.",
 }
